@@ -52,6 +52,17 @@ def T(*ts):
     return ["T", list(ts)]
 
 
+def lift_axis(n, t, ax):
+    """Type of a vmapped argument: axis None = unchanged, 0 = new leading axis,
+    1 = mapped over the second axis of a vector-of-scalars argument."""
+    if ax is None:
+        return t
+    if ax == 0:
+        return V(n, t)
+    assert ax == 1 and t[0] == "V" and t[2][0] in ("F", "B", "I"), t
+    return V(t[1], V(n, t[2]))
+
+
 def sig(node):
     """(input types, output type) of a program node."""
     k = node["k"]
@@ -62,7 +73,7 @@ def sig(node):
     if k == "vmap":
         ins, out = sig(node["inner"])
         n = node["n"]
-        lifted = [V(n, t) if ax == 0 else t for t, ax in zip(ins, node["axes"])]
+        lifted = [lift_axis(n, t, ax) for t, ax in zip(ins, node["axes"])]
         return lifted, V(n, out)
     if k == "repeat":
         ins, out = sig(node["inner"])
@@ -433,7 +444,7 @@ def run(node, args, ctx, prefix=()):
         for i in range(n):
             if k == "vmap":
                 a_i = [
-                    index_ref(a, i) if ax == 0 else a
+                    index_ref(a, i) if ax == 0 else (np.take(a, i, axis=1) if ax == 1 else a)
                     for a, ax in zip(args, node["axes"])
                 ]
             else:
